@@ -151,3 +151,24 @@ def run(F, R):
         R.check(via_idx, "R30.4", "resolve_list:error-stamped-with-item-context", c.where(), "receiver is the with_index context",
                 "a list item's error is stamped with the list field's context instead of the item's indexed context on one branch only: the error path "
                 "differs with and without extensions")
+
+    R.rule("R30.5", "list items are resolved only where the per-item resolve hook lives: ContextBase::with_index (the item context) is called only inside the two "
+                    "resolve_list functions (static and dynamic), each of which wraps the item resolution in Extensions::resolve — an executor arm that indexes "
+                    "into a list by itself would resolve items without the hook")
+    callers = F.callers_of(r"async_graphql::context::\{impl#\d+\}::with_index$")
+    n5 = 0
+    for c in callers:
+        if not c.body.defp.startswith("async_graphql::") or "::tests::" in c.body.defp:
+            continue
+        n5 += 1
+        owner = c.body.owner or c.body.defp
+        in_list = re.search(r"^async_graphql::(resolver_utils::list::resolve_list|dynamic::resolve::resolve_list)$", owner) is not None
+        key = re.sub(r"\{closure#\d+\}", "{c}", re.sub(r"\{impl#\d+\}", "{impl}", c.body.defp.replace("async_graphql::", "")))
+        R.check(in_list, "R30.5", "item-context-created-in:" + key, c.where(), "inside resolve_list",
+                "%s creates a list-item context outside resolve_list: the items it resolves never pass Extensions::resolve, so resolve hooks are skipped for them" % c.body.defp.split("::")[-2])
+    R.floor("R30.5", "with_index call sites", n5, 3)
+    for pat, key in ((r"async_graphql::resolver_utils::list::resolve_list$", "static"), (r"async_graphql::dynamic::resolve::resolve_list$", "dynamic")):
+        fam = [b for b in F.bodies.values() if (b.owner or b.defp) and re.search(pat, b.owner or b.defp)]
+        hooks = [c for b in fam for c in b.calls() if c.callee and re.search(r"extensions::\{impl#\d+\}::resolve$", c.callee)]
+        R.check(bool(hooks), "R30.5", key + ":resolve_list-wraps-items-in-the-resolve-hook", fam[0].where() if fam else "-", "%d Extensions::resolve sites" % len(hooks),
+                "resolve_list does not call Extensions::resolve for its items")
